@@ -132,6 +132,8 @@ class SessionWorld:
 
             def onLeave(self, details):
                 world.events.append(("leave", details.reason))
+                if "onLeave_nobase" in hooks:      # a user override that does not call the base implementation
+                    return hooks["onLeave_nobase"](self, details)
                 r = base.onLeave(self, details)
                 if "onLeave" in hooks:
                     return hooks["onLeave"](self, details, r)
